@@ -4,6 +4,7 @@
 # The full-suite run takes a lock so that concurrent confirmations do not collide on fixed UDP ports.
 set -u
 export GOFLAGS=-mod=mod GOPROXY=off GOSUMDB=off GOTOOLCHAIN=local
+export GOPATH=$(go env GOPATH) GOCACHE=$(go env GOCACHE) GOMODCACHE=$(go env GOMODCACHE)
 d=$(readlink -f "$1"); name=$(basename "$d")
 wt=/tmp/confirm-$name
 git -C /repo worktree remove --force $wt >/dev/null 2>&1
